@@ -19,6 +19,7 @@ RULE = ('(In 30% of the generated programs the token store works with blocks of 
         'disjoint ordered children, every significant token owned by exactly one leaf, every leaf in the store) are checked on the '
         'root and on every node returned by pop(). Non-trivial = history of >= 2 applied operations in which a later one goes through '
         'a node inserted/moved/copied by an earlier one.')
+RULE = RULE + ' Round 8: block-sessions job - in-memory editing sessions of 3-40 (80) steps (tags appended, directives popped, appended, inserted in bulk) on 3-30 one-line transactions with store blocks of 2-8 tokens; invariants after every step and on every popped directive.'
 ASSUMPTIONS = [
     'histories are op lists with selectors reduced modulo the candidates present (a data encoding of a rule-based state machine), '
     'generated state-aware so that every drawn operation is applicable when drawn',
